@@ -77,6 +77,12 @@ def run(ctx):
     if ctx.replay:
         meta = json.load(open(os.path.join(ctx.replay, "meta.json")))
         sc = os.path.join(ctx.replay, os.path.basename(meta["script"]))
+        if meta.get("flavour") == "msan":
+            exe_m = build(pid + "-msan", "msan")
+            rc_m, out_m = vlib.sh([exe_m, sc, os.path.join(wd, "replay-msan.ndjson")], env=dict(vlib.SAN_ENV, VH_ALARM="900"), timeout=1000)
+            if rc_m != 0:
+                verdict.deviation("C14:uninitialised-byte-sent" if rc_m == 97 else "C14:msan-abort", out_m[-600:], ctx.replay)
+            return verdict.finish()
         harness(sc, "replay", meta)
         return verdict.finish()
 
@@ -101,6 +107,18 @@ def run(ctx):
     scriptB = os.path.join(wd, "scriptB.ndjson")
     nB = fsmgen.write_script(scriptB, seed, P["executions"])
     traceB, outB = harness(scriptB, "B", {"mode": "script", "script": scriptB, "seed": seed})
+    if pid == "C14":
+        # instrument of the binding step: the same conversations in a MemorySanitizer build; the harness
+        # asks MSan about every byte handed to the transport send function
+        exe_m = build(pid + "-msan", "msan")
+        rc_m, out_m = vlib.sh([exe_m, scriptB, os.path.join(wd, "traceB-msan.ndjson")], env=dict(vlib.SAN_ENV, VH_ALARM="900"), timeout=1000)
+        cov["msan_pass"] = {"exit": rc_m, "script": "scriptB.ndjson"}
+        if rc_m != 0:
+            mpath = os.path.join(wd, "meta.json")
+            json.dump({"mode": "script", "script": scriptB, "seed": seed, "flavour": "msan"}, open(mpath, "w"))
+            rp = vlib.save_replay(pid, "B-msan-seed%d" % seed, [mpath, scriptB])
+            verdict.deviation("C14:uninitialised-byte-sent" if rc_m == 97 else "C14:msan-abort",
+                              "MemorySanitizer build: %s" % out_m[-600:], rp)
     evs = vlib.read_ndjson(traceB) if traceB else []
     kinds = {}
     for e in evs:
